@@ -272,7 +272,7 @@ func vRefDropBinary(e expr.Expr) expr.Expr {
 func VerifC28Effects() {
 	c := vCfg(sym.Param("wset", 0))
 	val := c.gen(1)
-	addr := c.gen(1)
+	addr := c.leaf()
 	w := c.width()
 	var ef expr.Effect
 	isMem := sym.Choose(2) == 0
